@@ -6,7 +6,11 @@
    from the pinned tree); Props/C05.v demands that the table regenerated from /repo on every
    run (Gen/C05_Sites.v) is equal to it.  A row that moves, disappears, appears, changes its
    guard or stops aborting on failure breaks obligation auth_sites_as_modelled, and the
-   model has to be re-read against the code before this table is updated. *)
+   model has to be re-read against the code before this table is updated.
+   History: re-synchronised with /repo after fixes 61d7222 (new row: TLS 1.3 client compares the
+   CertificateVerify scheme with the offered signature_algorithms when no delegated credential is
+   used -> client13) and 11c0ed7 (guard of the srpUsername assignment now requires an SRP suite
+   -> server12). *)
 From Coq Require Import List String.
 Import ListNotations.
 Open Scope string_scope.
@@ -52,6 +56,9 @@ Definition expected_sites : list (string * string * string * string * string * s
   ("tlsconnection.py", "TLSConnection._clientTLS13Handshake", "assign",
    "delegated_credential = cert_ext.delegated_credential",
    "not sr_psk && cert_ext", "-");
+  ("tlsconnection.py", "TLSConnection._clientTLS13Handshake", "compare",
+   "signature_scheme not in offered_ext.sigalgs",
+   "not sr_psk && not(cert_ext)", "alert:illegal_parameter");
   ("tlsconnection.py", "TLSConnection._clientTLS13Handshake", "check",
    "method(certificate_verify.signature, signature_context, pad_type, hash_name, salt_len)",
    "not sr_psk", "raise:TLSDecryptionFailed");
@@ -102,7 +109,7 @@ Definition expected_sites : list (string * string * string * string * string * s
    "", "-");
   ("tlsconnection.py", "TLSConnection._handshakeServerAsyncHelper", "assign",
    "srpUsername = clientHello.srp_username.decode('utf-8')",
-   "clientHello.srp_username", "-");
+   "clientHello.srp_username and cipherSuite in CipherSuite.srpAllSuites", "-");
   ("tlsconnection.py", "TLSConnection._handshakeServerAsyncHelper", "create",
    "self.session.create(srp=srpUsername, client=clientCertChain, server=serverCertChain)",
    "", "-");
